@@ -28,6 +28,13 @@ def run_check(mod, tier, seed, replay=None):
     ps = core.proof_status(pid)
     forb = core.forbidden_scan()
     proofs_ok = ps['ok'] and not forb
+    if tier == 'thorough' and ps['ok']:
+        ck = core.coqchk(pid)
+        ps['coqchk'] = ck
+        ps['checker_cmd'] = ps.get('checker_cmd', '') + ' && ' + ck['cmd']
+        if not ck['ok']:
+            proofs_ok = False
+            ps['failed_theorem'] = 'coqchk rejected Properties_%s' % pid
     if not binfo.get('vmodel_ok'):
         proofs_ok = False
     header = list(getattr(mod, 'HEADER', []))
@@ -197,6 +204,7 @@ def _run(mod, tier, seed, replay, pid, t_start, binfo, ps, forb, proofs_ok, head
             'trusted_base': TRUSTED_COMMON + list(getattr(mod, 'TRUSTED', [])),
             'theorems': ps['theorems'],
             'axioms': ps.get('axioms', []),
+            'coqchk': ps.get('coqchk'),
             'evaluations': len(cases),
             'distinct_nontrivial': len(nontriv),
             'rule': mod.RULE,
